@@ -2,6 +2,7 @@ package c14
 
 import (
 	"bufio"
+	"crypto/sha256"
 	"encoding/json"
 	"fmt"
 	"os"
@@ -17,6 +18,10 @@ import (
 	"testing"
 	"time"
 
+	sdk "github.com/cosmos/cosmos-sdk/types"
+	ibcclienttypes "github.com/cosmos/ibc-go/v3/modules/core/02-client/types"
+	channeltypes "github.com/cosmos/ibc-go/v3/modules/core/04-channel/types"
+	"github.com/cosmos/ibc-go/v3/modules/core/exported"
 	abci "github.com/tendermint/tendermint/abci/types"
 
 	"verif/harness/core"
@@ -177,6 +182,9 @@ func TestC14(t *testing.T) {
 			r.Count("replicas_compared", 1)
 			compare(r, cid, res.spec, ref, res.fps, tf)
 		}
+
+		// ---- receive hook of the ICS-20 middleware, called the way ibc core calls it (not part of the tape)
+		hookProbe(r, cid, sc)
 
 		// ---- file-system access during block execution (system-call trace of one more replica)
 		traceReplica(r, cid, tapePath, filepath.Join(tmp, fmt.Sprintf("trace-%d", si)), ref, tf)
@@ -790,4 +798,66 @@ func traceReplica(r *core.Run, cid, tape, root string, ref []Fingerprint, tf *Ta
 		r.Violation(cid, "fs-access-during-block-execution/"+pat, map[string]interface{}{"syscall_line": private[pat],
 			"meaning": "while executing blocks the node looked up a path below its working directory / HOME / TMPDIR: what is found there differs from node to node"})
 	}
+}
+
+// hookProbe calls the aggregate module's ICS-20 receive hook on the recorded chain's final state, several times each on
+// branches of the same state, for a packet whose conversion succeeds and for packets whose conversion fails (amount
+// above the receiver's vouchers; unregistered denomination). The hook is block-execution code (ibc core calls it inside
+// MsgRecvPacket): the acknowledgement it returns, the events it emits (attribute order included) and the state it
+// leaves must be the same in every call.
+func hookProbe(r *core.Run, cid string, sc *Scenario) {
+	n := sc.A
+	n.Begin(n.Header.Time.Add(5 * time.Second)) // a block of its own, after the recorded ones (not on the tape)
+	u0 := sc.W.Users[0]
+	mk := func(denom, amount string) channeltypes.Packet {
+		bz, _ := json.Marshal(map[string]string{"denom": denom, "amount": amount, "sender": "cosmos1sender", "receiver": u0.Acc.String()})
+		return channeltypes.NewPacket(bz, 1, "transfer", "channel-7", "transfer", "channel-0", ibcclienttypes.NewHeight(1, 1000), 0)
+	}
+	ack := channeltypes.NewResultAcknowledgement([]byte{1})
+	cases := []struct {
+		name string
+		pkt  channeltypes.Packet
+	}{
+		{"conversion-succeeds", mk("uatom", "1000")},
+		{"conversion-fails-amount-above-vouchers", mk("uatom", "999999999999")},
+		{"unregistered-denomination", mk("uosmo", "5")},
+		{"unparsable-amount", mk("uatom", "12x")},
+	}
+	for _, c := range cases {
+		var first string
+		for k := 0; k < 12; k++ {
+			cctx, _ := n.Ctx().CacheContext()
+			em := sdk.NewEventManager()
+			cctx = cctx.WithEventManager(em)
+			var got exported.Acknowledgement
+			err, panicked := core.Catch(func() error { got = n.App.AggregateKeeper.OnRecvPacket(cctx, c.pkt, ack); return nil })
+			fp := ""
+			if panicked {
+				fp = "panic: " + err.Error()
+			} else {
+				ackBz := []byte("nil")
+				if got != nil {
+					ackBz = got.Acknowledgement()
+				}
+				snap := n.Snap(cctx, "bank", "evm", "aggregate")
+				h := sha256.New()
+				for _, st := range []string{"aggregate", "bank", "evm"} {
+					h.Write([]byte(snap.Stores[st].Digest()))
+				}
+				fp = fmt.Sprintf("ack=%x events=%s state=%x", ackBz, hashEvents(em.ABCIEvents()), h.Sum(nil))
+			}
+			r.Eval(fmt.Sprintf("%s/hook-probe/%s/%d", cid, c.name, k), true)
+			if k == 0 {
+				first = fp
+				continue
+			}
+			if fp != first {
+				r.Violation(cid, "divergence/ics20-receive-hook/"+c.name, map[string]interface{}{"call_0": first, fmt.Sprintf("call_%d", k): fp,
+					"meaning": "the same hook call on the same state gave another acknowledgement / event (attribute order counts) / state"})
+				break
+			}
+		}
+		r.Count("hook_probe_calls/"+c.name, 12)
+	}
+	n.End()
 }
